@@ -74,8 +74,35 @@ impl Fp {
         }
         r
     }
-    /// x^(p-2); maps 0 to 0.
+    fn sqn(&self, n: usize) -> Fp {
+        let mut x = *self;
+        for _ in 0..n {
+            x = x.sq();
+        }
+        x
+    }
+    /// x^(2^250 - 1) by the usual addition chain (checked against `pow` in the self-test).
+    fn pow_2_250_1(&self) -> (Fp, Fp) {
+        let z2 = self.sq();
+        let z9 = z2.sqn(2).mul(self);
+        let z11 = z9.mul(&z2);
+        let z2_5_0 = z11.sq().mul(&z9);
+        let z2_10_0 = z2_5_0.sqn(5).mul(&z2_5_0);
+        let z2_20_0 = z2_10_0.sqn(10).mul(&z2_10_0);
+        let z2_40_0 = z2_20_0.sqn(20).mul(&z2_20_0);
+        let z2_50_0 = z2_40_0.sqn(10).mul(&z2_10_0);
+        let z2_100_0 = z2_50_0.sqn(50).mul(&z2_50_0);
+        let z2_200_0 = z2_100_0.sqn(100).mul(&z2_100_0);
+        let z2_250_0 = z2_200_0.sqn(50).mul(&z2_50_0);
+        (z2_250_0, z11)
+    }
+    /// x^(p-2) = x^(2^255 - 21); maps 0 to 0.
     pub fn inv(&self) -> Fp {
+        let (t, z11) = self.pow_2_250_1();
+        t.sqn(5).mul(&z11)
+    }
+    /// x^(p-2) by plain square-and-multiply (reference for the self-test).
+    pub fn inv_slow(&self) -> Fp {
         self.pow(&p().sub(&U::from_u64(2)))
     }
     pub fn is_zero(&self) -> bool {
